@@ -83,7 +83,7 @@ def run_items(items, job):
                 rules = sorted({k[2] for k in (fd - exp)} | {k[2] for k in (exp - fd)})
                 v.add("default-vs-all:" + ",".join(rules))
                 detail["diff"].append(["default", sorted((fd - exp).elements())[:5], sorted((exp - fd).elements())[:5]])
-            idx = int(key.split(":")[1]) if key[0] == "Z" else 0
+            idx = PL.item_index(it, key)
             for j in (idx * 5 % len(dflt), (idx * 11 + 3) % len(dflt)):
                 r = dflt[j]
                 om = app.scan_text(doc, disable=[r])
